@@ -187,7 +187,8 @@ CHECKS["C06"] = {
              "each variant pairs the right screw list with the right kernel and change of frame; the four statics methods form "
              "the (space|body)x(forward|inverse) table with J^T and pinv(J^T); link-mass statics adds exactly one weight per "
              "link with one index for cg/mass/pose/prefix Jacobian. Derivative-of-FK equalities are not decided. Also (R06.5): the Jacobian primitives reached from the arm have the reference's normal form."
-             " R06.7: numericalJacobian leaves the arm at the configuration it was evaluated at: the state-writing FK closure is last called at the unperturbed joint vector, by the finite-difference driver (path summaries of the driver) or by the method after the driver."),
+             " R06.7: numericalJacobian leaves the arm at the configuration it was evaluated at: the state-writing FK closure is last called at the unperturbed joint vector, by the finite-difference driver (path summaries of the driver) or by the method after the driver."
+             ' R06.8: memo coherence (rule function shared with R08.7) over the jacobian* / staticForces* methods of Arm and Robot: a field such a method stores and can read back from an earlier call must be discarded by every method that writes a field it was computed from.'),
     "note": "Trusted: JacobianSpace/JacobianBody/Adjoint (C01/C02). The length contract of _link_masses (n+1, index 0 = base link, as the URDF loader produces) is an input contract, not checked.",
 }
 
